@@ -521,12 +521,16 @@ _R8 = [
      "no index value is built from an unchecked sum or product (index arithmetic stays in usize)"),
     (("C20",), rules8.dsatur_update_then_queue, 2, None, "dsatur re-queues a neighbour with its saturation read after the colour was inserted"),
     (("C15",), rules8.join_flag_names_edge, 2, None, "find_join's walk ends only at a vertex flagged with the current edge's id"),
+    (("C17",), rules8.reader_never_panics, 50, None, "the deserialising functions contain no explicit panic site (assert / debug_assert / unwrap / expect / panic) on a reachable path"),
 ]
 for _pids, _fn, _floor, _predf, _txt in _R8:
     for _pid in _pids:
         _fl = _floor[_pid] if isinstance(_floor, dict) else _floor
         _pr = _predf(_pid) if _predf else (lambda f, s: True)
-        PROPS[_pid]["rules"].append(sub(_cached("r8." + _fn.__name__, _fn), _pr, _fl))
+        _rule8 = sub(_cached("r8." + _fn.__name__, _fn), _pr, _fl)
+        if _fn is rules8.reader_never_panics:
+            _rule8 = _serde_only(_rule8)
+        PROPS[_pid]["rules"].append(_rule8)
         if _pid != "C07":
             PROPS[_pid]["decides"] += "; " + _txt
 
